@@ -138,6 +138,6 @@ Example insert_preserves_premise :
   let evs := [(0, AAuto [SIns MInsert [(None, VInt 1, VNull)]]); (0, AAuto [SIns MInsert [(Some (VInt 5), VInt 2, VNull)]])] in
   let ss := [SIns MInsert [(None, VInt 3, VNull); (None, VInt 4, VNull)]] in
   forallb plain_insert ss = true /\
-  exists c', run_auto g cur_code (s_c (run g cur_code evs)) ss = Ok c' /\
+  exists c', run_auto g old_code (s_c (run g old_code evs)) ss = Ok c' /\
              map fst (live_rows c') = [1; 5; 6; 7]%Z.
 Proof. vm_compute. split; auto. eexists; split; reflexivity. Qed.
